@@ -5,4 +5,5 @@ import (
 	_ "verif/checks/c01"
 	_ "verif/checks/c02"
 	_ "verif/checks/c05"
+	_ "verif/checks/c11"
 )
